@@ -14,7 +14,9 @@
 //	   schema with overlapping IsTypeOf and no ResolveType), and a request whose resolver issues another request on the
 //	   same plan / cache / schema with other variables answers as it does alone;
 //	F. (sentinel.go) shared long-lived error values of every kind the library treats specially, returned by several fields
-//	   at different paths across requests: the probe's bytes do not depend on what failed before, the values are unchanged.
+//	   at different paths across requests: the probe's bytes do not depend on what failed before, the values are unchanged;
+//	G. (sharedvars.go) every request with variables sent repeatedly with ONE shared variables map object: the map is left
+//	   deep-equal to its snapshot and the bytes equal those answered with a private copy.
 //
 // Observables: json.Marshal of the *graphql.Result (bytes), json.Marshal of ValidateDocument(...).Errors (bytes), the
 // first result of a subscription. All must be byte-identical across A, B and C. There is no Lean driver: the
@@ -370,16 +372,33 @@ const (
 
 // run executes one case once through the given entry point.
 func (e *env) run(c *caseT, path int) obs {
-	s, cache, err := e.schema(c)
-	if err != nil {
-		return obs{Do: "SCHEMA-ERROR: " + err.Error()}
-	}
 	var vars map[string]interface{}
 	if c.Vars != nil {
 		vars = copyVars(c.Vars).(map[string]interface{})
 	}
 	var o obs
-	o.Do = guard(func() string {
+	o.Do = e.runWithVars(c, path, vars)
+	if strings.HasPrefix(o.Do, "SCHEMA-ERROR") {
+		return o
+	}
+	s, _, _ := e.schema(c)
+	o.Validate = guard(func() string {
+		doc, perr := parser.Parse(parser.ParseParams{Source: source.NewSource(&source.Source{Body: []byte(c.Query), Name: "GraphQL request"})})
+		if perr != nil {
+			return "PARSE-ERROR: " + perr.Error()
+		}
+		return marshal(graphql.ValidateDocument(s, doc, nil).Errors)
+	})
+	return o
+}
+
+// runWithVars executes the request with exactly the given variables object (no copy is made).
+func (e *env) runWithVars(c *caseT, path int, vars map[string]interface{}) string {
+	s, cache, err := e.schema(c)
+	if err != nil {
+		return "SCHEMA-ERROR: " + err.Error()
+	}
+	return guard(func() string {
 		if c.Mode.Exts {
 			path = pathDo // the plan entry points do not run the parse/validation hooks
 		}
@@ -408,14 +427,6 @@ func (e *env) run(c *caseT, path int) obs {
 		}
 		return marshal(graphql.Do(graphql.Params{Schema: *s, RequestString: c.Query, OperationName: c.Op, VariableValues: vars, Context: context.Background()}))
 	})
-	o.Validate = guard(func() string {
-		doc, perr := parser.Parse(parser.ParseParams{Source: source.NewSource(&source.Source{Body: []byte(c.Query), Name: "GraphQL request"})})
-		if perr != nil {
-			return "PARSE-ERROR: " + perr.Error()
-		}
-		return marshal(graphql.ValidateDocument(s, doc, nil).Errors)
-	})
-	return o
 }
 
 // ---------------------------------------------------------------- classification of a difference
@@ -523,23 +534,25 @@ func main() {
 	specs, cases := buildCases(run.Seed, run.Thorough())
 	if run.ReplayIn != "" {
 		var rp struct {
-			Case                 caseT  `json:"case"`
-			Interleave           *iseq  `json:"interleave"`
-			IntrospectionRequest string `json:"introspection_request"`
-			OuterEntry           string `json:"outer_entry_point"`
-			DumpBefore           string `json:"dump_before"`
-			SentinelKind         string `json:"sentinel_kind"`
+			Case                 caseT       `json:"case"`
+			Interleave           *iseq       `json:"interleave"`
+			IntrospectionRequest string      `json:"introspection_request"`
+			OuterEntry           string      `json:"outer_entry_point"`
+			DumpBefore           string      `json:"dump_before"`
+			SentinelKind         string      `json:"sentinel_kind"`
+			VariablesBefore      interface{} `json:"variables_before"`
 		}
 		if err := hx.LoadReplay(run.ReplayIn, &rp); err != nil {
 			run.CheckError("cannot load replay: " + err.Error())
 			run.Finish()
 			return
 		}
-		if rp.IntrospectionRequest != "" || rp.OuterEntry != "" || rp.DumpBefore != "" || rp.SentinelKind != "" {
+		if rp.IntrospectionRequest != "" || rp.OuterEntry != "" || rp.DumpBefore != "" || rp.SentinelKind != "" || rp.VariablesBefore != nil {
 			// replay of a phase-E finding: the targeted sequences are cheap and deterministic, run them all again
 			n := phaseReadOnly(run, specs, newEnv(specs), map[builtKey]string{})
 			n += phaseNested(run)
 			n += phaseSentinels(run)
+			n += phaseSharedVars(run, specs, cases, map[string]obs{})
 			run.Res.Evaluations = n
 			run.Finish()
 			return
@@ -717,6 +730,7 @@ func main() {
 		eExec += phaseReadOnly(run, specs, shared, shared.dumps)
 		eExec += phaseNested(run)
 		eExec += phaseSentinels(run)
+		eExec += phaseSharedVars(run, specs, cases, first)
 	}
 
 	// ---- C. compare what the fresh processes (started before phase A) observed
@@ -761,7 +775,7 @@ func main() {
 		key := fmt.Sprintf("%s|%s|%x|%s", specs[c.Schema].Name, c.Mode, h[:8], c.Op)
 		run.Case(key, len(o.Do) > 2 && class != "fault", map[string]interface{}{"id": c.ID, "query": c.Query[:min(len(c.Query), 300)], "result_class": class, "do": o.Do[:min(len(o.Do), 300)]})
 	}
-	run.Res.Rule = fmt.Sprintf("a case is one (schema, resolver-world mode, request); it counts as non-trivial when the request completed with data or errors; every case was executed %d× on one shared schema value interleaved with all others (in turn graphql.Do, PlanCache.Get+ExecutePlan, and re-execution of one prepared plan), %d× on freshly built schemas in the same process and once in each of %d fresh processes; both json.Marshal(result) and json.Marshal(ValidateDocument(...).Errors) must be byte-identical throughout; distinctness by (schema, mode, query, operation); phase D: a sequence = a probe request answered through one shared PlanCache after 1-6 near-miss requests (exactly one default value / literal / directive / alias / argument order / operation name / fragment body changed), every probe answer byte-identical to graphql.Do's; phase E: schema dump unchanged by all requests, data request unchanged by an interposed introspection request, outer request unchanged by a nested request issued from its own resolver; phase F: a request failing with a shared sentinel error answers the same after other requests failed with that sentinel elsewhere, and the sentinel values are unchanged", reps, freshReps, procs)
+	run.Res.Rule = fmt.Sprintf("a case is one (schema, resolver-world mode, request); it counts as non-trivial when the request completed with data or errors; every case was executed %d× on one shared schema value interleaved with all others (in turn graphql.Do, PlanCache.Get+ExecutePlan, and re-execution of one prepared plan), %d× on freshly built schemas in the same process and once in each of %d fresh processes; both json.Marshal(result) and json.Marshal(ValidateDocument(...).Errors) must be byte-identical throughout; distinctness by (schema, mode, query, operation); phase D: a sequence = a probe request answered through one shared PlanCache after 1-6 near-miss requests (exactly one default value / literal / directive / alias / argument order / operation name / fragment body changed), every probe answer byte-identical to graphql.Do's; phase E: schema dump unchanged by all requests, data request unchanged by an interposed introspection request, outer request unchanged by a nested request issued from its own resolver; phase F: a request failing with a shared sentinel error answers the same after other requests failed with that sentinel elsewhere, and the sentinel values are unchanged; phase G: requests re-sent with one shared variables map leave it unmodified and answer as with a private copy", reps, freshReps, procs)
 	run.Res.Evaluations = len(cases)*(reps+freshReps+procs) + ist.executions + eExec // every execution of the real code is compared
 	run.Res.Extra["interleave_sequences"] = ist.probes
 	run.Res.Extra["interleave_executions"] = ist.executions
